@@ -51,9 +51,11 @@ LEVEL_TEXT = ("Full strength on the model: for every sequence of add/update/rm c
               "with current parents is always new (fresh_with_parents), and the current pairs of every entity equal those of the key-value "
               "reference (refines_spec, on supports), in particular a re-added pair is current again (readd_current). "
               "Tied to /repo by step-by-step comparison of get_tags and of the tag/tag_edit tables with the model.")
-LEVEL_NOTE = ("The model mirrors record_tags/delete_tags as repaired by harness/findings_proposed/C24-*.fix.diff (duplicate pair in one command, "
-              "null-valued pair in rm, rm without arguments). Not modelled: transactions (commit points), concurrent writers, the "
-              "scheduler's own record_tags(new=False) calls during a run, CLI argument parsing beyond key=value splitting.")
+LEVEL_NOTE = ("The model mirrors record_tags/delete_tags as repaired by the fix commit proposed with this property "
+              "(harness/findings_proposed/C24-tags.fix.diff: same pair twice in one command, null-valued pair in rm, rm without pair or key); "
+              "the three former failing histories are corpus cases that must now pass. Not modelled: transactions (commit points), "
+              "concurrent writers, the scheduler's own record_tags(new=False) calls during a run, CLI argument parsing beyond key=value "
+              "splitting.")
 TECHNIQUE = "Lean 4 proof on an executable model of record_tags/delete_tags + differential run against the real backend through the CLI commands"
 
 # ------------------------------------------------------------------ values and spellings
@@ -355,6 +357,7 @@ def run_history(ctx, real, hist, replies, verbose=False):
     names = {v: "E%d" % k for k, v in ids.items()}
     spec = {e: set() for e in ents}
     ri = 1
+    mismatched = False
     for n, cmd in enumerate(hist):
         k = len(cmd["ents"])
         reps = replies[ri:ri + k]
@@ -385,21 +388,26 @@ def run_history(ctx, real, hist, replies, verbose=False):
             ctx.violation("C24-edit-graph-cycle", "tag_edit graph has a cycle", case=case, expected="acyclic", actual=sorted(edges)[:20],
                           kind="history")
             return "violation"
-        # ---- correspondence
+        # ---- correspondence (after a mismatch the rest of the history is still run through the oracle)
+        if mismatched:
+            continue
         m = parse_model_state(rep)
         if isinstance(m, str):
             ctx.mismatch("model driver answered %s" % m, case=case, model=m, impl="ok")
-            return "mismatch"
+            mismatched = True
+            continue
         mrows, medges = m
         mcur = {e: sorted((r[1], r[2]) for r in mrows.values() if r[4] and r[0] == "E%d" % e) for e in ents}
         icur = {e: after[ids[e]] for e in ents}
         if mcur != icur:
             ctx.mismatch("get_tags differs from the model's current tags", case=case, model=mcur, impl=icur)
-            return "mismatch"
+            mismatched = True
+            continue
         cm, ci = canon_state(mrows, medges), canon_state(rows, edges)
         if cm != ci:
             ctx.mismatch("(tag, is_current, tag_edit) relation differs from the model", case=case, model=cm, impl=ci)
-            return "mismatch"
+            mismatched = True
+            continue
         for h, r in rows.items():
             if {p for p, c in edges if c == h} != set(r[3]):
                 problems.append("tag_edit parents of a tag differ from its hashed parents")
@@ -407,7 +415,9 @@ def run_history(ctx, real, hist, replies, verbose=False):
             problems.append("hash_tag called with unsorted parents")
         if problems:
             ctx.mismatch(problems[0], case=case, model="consistent", impl=problems[:3])
-            return "mismatch"
+            mismatched = True
+    if mismatched:
+        return "mismatch"
     return "ok"
 
 
